@@ -132,7 +132,7 @@ Check == /\ ~done
          /\ verdict' = Failed(Rec[l])
          /\ (verdict' = <<>> \/ PrintT(<<"TRACE-REJECTED", l, ToJson([laws |-> verdict', flags |-> Flags(Rec[l])])>>))
          \* vacuity guard: which events were in the domain of the guarded laws
-         /\ (Rec[l].kind = "pair" => PrintT(<<"DOMAIN", Rec[l].space, RoundTripDomain(Rec[l]), RhumbExempt(Rec[l])>>))
+         /\ (Rec[l].kind = "pair" => PrintT(<<"DOMAIN", l, Rec[l].space, RoundTripDomain(Rec[l]), RhumbExempt(Rec[l])>>))
 TraceSpec == TraceInit /\ [][Check]_tvars
 
 ok == verdict = <<>>
